@@ -213,6 +213,18 @@ fn start_watchdog(prop: &'static str) {
     });
 }
 
+/// wall time is noisy on a loaded machine (a descheduled thread can lose hundreds of milliseconds): an input only
+/// counts as over budget if it is over budget on EVERY one of five further measurements
+fn remeasure(bytes: &[u8]) -> Duration {
+    let mut best = Duration::from_secs(3600);
+    for _ in 0..5 {
+        let t0 = Instant::now();
+        let _ = guarded(|| exercise(bytes));
+        best = best.min(t0.elapsed());
+    }
+    best
+}
+
 pub fn c04_eval(bytes: &[u8], uni: &'static str, acc: &mut Acc) {
     let sl = slot();
     if bytes.len() > 64 {
@@ -240,7 +252,7 @@ pub fn c04_eval(bytes: &[u8], uni: &'static str, acc: &mut Acc) {
             }
             // linear budget: 50 us per byte (measured ~0.03-0.3 us per byte per entry point), floor 50 ms
             let budget = Duration::from_micros(50 * bytes.len() as u64).max(Duration::from_millis(250));
-            if dt > budget {
+            if dt > budget && remeasure(bytes) > budget {
                 acc.viol(uni, crate::c_docs::show(bytes), Some("over-linear-budget"), format!("{} bytes took {:?} (budget {:?})", bytes.len(), dt, budget));
             }
         }
@@ -308,7 +320,7 @@ pub fn growth_worker(tier: Tier, shard: usize, nshards: usize) -> i32 {
         let verdict = match r {
             Ok(n) => {
                 let budget = Duration::from_micros(50 * c.len() as u64).max(Duration::from_millis(250));
-                if dt > budget {
+                if dt > budget && remeasure(c) > budget {
                     format!("SLOW {} {}", dt.as_micros(), n)
                 } else {
                     format!("OK {} {}", dt.as_micros(), n)
